@@ -107,7 +107,8 @@ META = {
                     'decision if it disagrees',
                     'rows computed with GMRES local solves are compared with the exact model rows within 1e-6 relative (QR: 1e-9): '
                     'after an undetected exhaustion of the Krylov space dense_GMRES is accurate to about 1e-8 only; the dense '
-                    'oracle still demands (R A) = 0 within 1e-8 on those rows',
+                    'oracle judges (R A) = 0 on GMRES rows within 1e-6 (QR rows: 1e-8) for the same reason (a first version demanded '
+                    '1e-8 there and raised a false alarm on a 12-unknown local system whose Krylov space is exhausted at step 9)',
                     'AIR: (R A)[i, j] = 0 is checked on the documented neighbourhood of row i (strongly connected F-points '
                     'within `degree`), which contains the pattern of the returned row (local_air eliminates zeros)'],
     'trusted_extra': ['Driver/C11.lean strengthWithA / dropZeros (ops c11_api_*): driver-local second opinion only, written for canonical '
@@ -126,6 +127,10 @@ EPS = Fr(1e-15)          # exact value of the literal 1e-15
 TINY64 = enc_rat(Fr(float(np.finfo(np.float64).tiny)))     # numeric_limits<double>::min()
 TOL = 1e-9
 AIR_TOL = 1e-8
+# GMRES local solves (use_gmres=True): dense_GMRES tests breakdown with an absolute 1e-12; after an undetected exhaustion of the
+# Krylov space it iterates on rounding noise and is accurate to about 1e-8 only (observed 1.8e-8 on a 12-unknown local system), so
+# the dense oracle judges (R A) = 0 on those rows at 1e-6 (a defect of the local solve shows as O(1e-2) and larger)
+AIR_TOL_GMRES = 1e-6
 THETAS = (0.0, 0.25, 0.5, 0.75, 1.0)
 
 # design_probes/scripts/c11_case_A.txt (finding #20): theta = 0.5, norm = 'min', RS with second pass
@@ -1270,7 +1275,7 @@ def air_case(ctx, B, A, split, theta, norm, degree, tags, raw_mask=None, layout=
         try:
             R = IP.local_air(fresh(Acsr, layout, 'A'), split, theta=theta, norm=norm, degree=degree, use_gmres=use_gmres,
                              maxiter=max(10, maxloc + 1), precondition=precond)
-            e = judge_air(A, M, split, dense(R), degree)
+            e = judge_air(A, M, split, dense(R), degree, tol=AIR_TOL_GMRES if use_gmres else AIR_TOL)
             if e:
                 ctx.violation(f'{name}: {e}', {**case0, 'use_gmres': use_gmres, 'precondition': precond})
         except Exception as ex:
@@ -1338,7 +1343,7 @@ def air_bsr_case(ctx, A, split, theta, degree, bs, layout=None, B=None):
         try:
             R = IP.local_air(fresh(Ab, layout, 'A'), split, theta=theta, norm='abs', degree=degree, use_gmres=use_gmres,
                              maxiter=max(10, maxloc + 1), precondition=precond)
-            e = judge_air(D, M, split, dense(R), degree, bs=bs)
+            e = judge_air(D, M, split, dense(R), degree, tol=AIR_TOL_GMRES if use_gmres else AIR_TOL, bs=bs)
             if e:
                 ctx.violation(f'{name}: {e}', {**case0, 'use_gmres': use_gmres, 'precondition': precond})
         except Exception as ex:
@@ -1490,7 +1495,7 @@ def air_gmres_kernel(ctx, B, A, Acsr, C, Mm, split, cpts, degree, case0, nontriv
                     for c, v in row:
                         if 0 <= c < n:
                             Rd[r, c] += v
-                e = judge_air(A, Mm, split, Rd, degree)
+                e = judge_air(A, Mm, split, Rd, degree, tol=AIR_TOL_GMRES)
                 if e:
                     ctx.violation(f'approx_ideal_restriction_pass2 (use_gmres=1, precondition={pc}, maxiter={maxiter}): {e}', cs)
             # the local solve itself, on up to three rows
@@ -1557,7 +1562,7 @@ def air_bsr_kernels(ctx, B, Ab, D, M, split, degree, bs, case0):
                 for c, blk in row:
                     if 0 <= c < n:
                         Rd[r * bs:(r + 1) * bs, c * bs:(c + 1) * bs] += blk.reshape(bs, bs)
-            e = judge_air(D, Mlib, split, Rd, degree, bs=bs)
+            e = judge_air(D, Mlib, split, Rd, degree, tol=AIR_TOL_GMRES if ug else AIR_TOL, bs=bs)
             if e:
                 ctx.violation(f'block_approx_ideal_restriction_pass2 (use_gmres={ug}, precondition={pc}, maxiter={maxiter}): {e}', cs)
         cand = [r for r in range(nc) if sizes[r] > 0]
@@ -1902,7 +1907,7 @@ def _replay(ctx, data):
                              'layout': case.get('layout')})
         R = IP.local_air(Ab, _i32(case['split']), theta=case['theta'], norm='abs', degree=case['degree'],
                          use_gmres=ug, maxiter=50, precondition=pc)
-        e = judge_air(D, M, _i32(case['split']), dense(R), case['degree'], bs=bs)
+        e = judge_air(D, M, _i32(case['split']), dense(R), case['degree'], tol=AIR_TOL_GMRES if ug else AIR_TOL, bs=bs)
         if e:
             ctx.violation(f'local_air(BSR, use_gmres={ug}, precondition={pc}): ' + e, case)
     elif kind == 'rs2':
